@@ -63,6 +63,8 @@ class Contract:
     cuts: dict[str, dict[str, str]] = field(default_factory=dict)  # straight-line cut points: {source prefix of a top-level statement: {clause name: invariant}}
     asserts: dict[str, dict[str, str]] = field(default_factory=dict)  # {source prefix of a statement: {name: clause}}: proved on every path reaching the statement, then assumed (cut rule)
     result_is: str | None = None  # for a PURE function: the specification expression its result equals (used where the call is implicit and element-wise, e.g. list ==)
+    labels: dict[str, str] = field(default_factory=dict)  # {label: source prefix of a statement}: the state BEFORE that statement, for at(label, e) and two-heap lemma instances
+    comp_each: dict[str, str] = field(default_factory=dict)  # clauses over `elem` (the element) and `k_` (its index) proved of the arbitrary element of a comprehension and then assumed of all
     collector: str | None = None  # name of the local list the function appends its results to (standard collector invariant for its loops)
 
 
@@ -89,10 +91,11 @@ class Lemma:
     trusted: bool = False  # an AXIOM about a library operation (validated at run time), instantiated by hints, never proved
     ih: list[str] = field(default_factory=list)  # induction hypotheses: available to the PROOF of the lemma only, never required of (or given to) a user of an instance
     uses: list[str] = field(default_factory=list)  # instances of OTHER lemmas (hint syntax) assumed in the proof of this one
+    two_heaps: bool = False  # a frame lemma: `old(e)` reads e in a SECOND, unrelated heap (an instance names the earlier state: `LEMMA@label: ...`)
 
 
-def lemma(name, props, vars, hyps, goal, notes="", trusted=False, ih=(), uses=()):
-    LEMMAS[name] = Lemma(name, props, vars, hyps, goal, notes, trusted, list(ih), list(uses))
+def lemma(name, props, vars, hyps, goal, notes="", trusted=False, ih=(), uses=(), two_heaps=False):
+    LEMMAS[name] = Lemma(name, props, vars, hyps, goal, notes, trusted, list(ih), list(uses), two_heaps)
     return LEMMAS[name]
 
 
